@@ -1,5 +1,5 @@
 (* Line protocol driver for the C09 lexer model.  One case per input line:
-     fx=<0|1>;in=<hex bytes>
+     fx=<0|1>;sp=<0|1>;ob=<0|1>;un=<0|1>;in=<hex bytes>      (which of the tokenizer fixes the tree has)
    Reply (same canonical format as harness/src/bin/c09.rs prints for the implementation):
      ok <item> <item> ... ## <side error> ... ## U:<start>:<ok:<hex>|panic:<site>> ...   (unescape of every escaped string token)
      panic:<restore_char|slice>
@@ -107,12 +107,15 @@ let () =
       let line = input_line stdin in
       if line <> "" then begin
         let fx = field "fx" line = "1" in
+        let sp = field "sp" line = "1" in
+        let ob = field "ob" line = "1" in
+        let un = field "un" line = "1" in
         let input = bytes_of_hex (field "in" line) in
         let out =
-          match lex fx input with
+          match lex fx sp ob input with
           | Ok (items, errs) ->
               String.concat " " ("ok" :: List.map item items) ^ " ##" ^ String.concat "" (List.map (fun e -> " " ^ side e) errs)
-              ^ " ##" ^ String.concat "" (List.map (unesc fx) items)
+              ^ " ##" ^ String.concat "" (List.map (unesc un) items)
           | Panic PRestoreChar -> "panic:restore_char"
           | Panic PSlice -> "panic:slice"
           | Panic _ -> "panic:?"
